@@ -90,6 +90,9 @@ def gen_program(r, prop):
             else:
                 b = [enc(r.choice(absent_in)) if (absent_in and r.random() < 0.3) else enc(r.choice(keys)) for _ in range(r.randint(1, 12))]
             st = ["count", t, b]
+            if r.random() < 0.04:                   # now and then a really large batch (internal chunking, int32 counts ...)
+                v = r.choice(absent_in) if (absent_in and r.random() < 0.6) else r.choice(keys)
+                st = ["countrep", t, enc(v), r.choice([1000, 70000, 100000, 100001, 150000, 270000]), b[:8], r.choice(["head", "head", "tail"])]
         elif c < 0.2:
             st = ["getvec", t, some_keys(1, 6, 0.12)]
         elif c < 0.3:
